@@ -225,27 +225,12 @@ impl Submessage {
       }
       SubmessageKind::INFO_REPLY => {
         let f = BitFlags::<INFOREPLY_Flags>::from_bits_truncate(sub_header.flags);
-        // The body starts with the number of unicast locators. Check that so many
-        // locators (24 bytes each) can be there, before the parser reserves
-        // memory for them.
-        let locator_count = match (e, sub_content_buffer.get(0..4)) {
-          (speedy::Endianness::LittleEndian, Some(&[a, b, c, d])) => {
-            u32::from_le_bytes([a, b, c, d])
-          }
-          (speedy::Endianness::BigEndian, Some(&[a, b, c, d])) => u32::from_be_bytes([a, b, c, d]),
-          _ => 0, // too short, parser will report
-        };
-        if 4 + 24 * u64::from(locator_count) > sub_content_buffer.len() as u64 {
-          return Err(io::Error::new(
-            io::ErrorKind::InvalidInput,
-            format!(
-              "InfoReply declares {locator_count} locators, but has only {} bytes",
-              sub_content_buffer.len()
-            ),
-          ));
-        }
         mk_i_subm(InterpreterSubmessage::InfoReply(
-          InfoReply::read_from_buffer_with_ctx(e, &sub_content_buffer)?,
+          InfoReply::read_from_buffer_with_flag(
+            e,
+            &sub_content_buffer,
+            f.contains(INFOREPLY_Flags::Multicast),
+          )?,
           f,
         ))
       }
